@@ -201,6 +201,9 @@ def run_model(lines):
     return outs
 
 
+GEN_PANICS = []
+
+
 def gen_cases(kind, seed, n, extra_env=None):
     env = dict(GOENV)
     if extra_env:
@@ -208,6 +211,13 @@ def gen_cases(kind, seed, n, extra_env=None):
     rc, out, err = sh([CORR, "gen", kind, str(seed), str(n)], env=env)
     if rc != 0:
         raise RuntimeError("corr gen %s failed: %s" % (kind, err))
+    # a generator that classifies its datagrams with the real decoders reports a decoder panic instead of dying
+    for l in err.split("\n"):
+        if l.startswith("GENPANIC\t"):
+            f = l.split("\t")
+            if len(f) >= 4:
+                GEN_PANICS.append({"kind": f[1], "session": [f[2]], "impl": "panic", "env": extra_env,
+                                   "verdict": "fail:panic the real decoder panicked while the generator classified this datagram: " + f[3][:300]})
     lines = out.split("\n")
     if lines and lines[-1] == "":
         lines.pop()
@@ -271,7 +281,10 @@ def nontrivial(line, out):
 def corr_shard(kind, seed, n, compare_model=True, extra_env=None, lines=None):
     r = CorrResult()
     if lines is None:
+        del GEN_PANICS[:]
         lines = gen_cases(kind, seed, n, extra_env)
+        for g in GEN_PANICS[:3]:
+            r.oracle_fail.append(dict(g, seed=seed))
     go = run_go(kind, lines, extra_env=extra_env)
     model = run_model(lines) if compare_model else None
     for i, l in enumerate(lines):
